@@ -78,6 +78,15 @@ def run(ctx):
         for c in cases:
             if any(o["op"] in ("predict", "up_tok", "up_part") for o in c["ops"][:-14]):
                 ctx.nontriv(json.dumps(c["ops"][:-14]))
+    # deeper, specification only: every history of depth 4 (quick) / 5 (thorough) over the small pool keeps Shape and
+    # HistoryIndependence (no replay: these runs extend the model-checked part beyond what is replayed)
+    deep = 4 if ctx.quick else 5
+    cfg = vlib.cfg_text(constants={"Depth": deep, "KeepNTagsMutant": False, "EmitCases": False, "PoolSel": 2},
+                        invariants=["ShapeInv", "HistoryIndependence"])
+    res = vlib.tlc(f"C08-mc-lifecycle-deep{deep}", "MC_Lifecycle", cfg, timeout=3400)
+    if res["violated"]:
+        raise vlib.ToolError(f"MC_Lifecycle depth {deep}: design-level invariant {res['violated']} violated")
+    ctx.add_tlc(res, f"MC_Lifecycle (specification only): all histories of depth {deep} over the small pool; Shape and HistoryIndependence hold")
     L.random_histories(ctx, binp, 240 if ctx.quick else 6000,
                        lambda o: o in ("predict", "fill_tags", "set_bnd", "filter", "up_raw"))
     # one sentence object re-used across texts of recurring lengths with a tag-predicting, score-storing predictor:
